@@ -110,11 +110,11 @@ func c10One(r *core.Run, sc scn, seed int64, f *fault) {
 	conn := o.Sim.Conn
 	defer cl.Close()
 	if !o.Returned {
-		n, armed := conn.BlockedReaders()
-		if n > 0 && !armed && conn.QueueLen() == 0 {
+		n, armed := o.StuckReaders, o.StuckArmed
+		if n > 0 && !armed && o.StuckQueue == 0 {
 			fail("does-not-return:"+f.Kind+":reader-blocked-without-deadline", fmt.Sprintf("context done but Do is still blocked: %d reader(s) blocked in Read with no deadline armed and nothing queued (cancel-watch waits for the receiver)", n))
 		} else {
-			fail("does-not-return:"+f.Kind, fmt.Sprintf("Do did not return (blocked readers %d, deadline armed %v, queued %d):\n%s", n, armed, conn.QueueLen(), clipS(strings.Join(libraryGoroutines(), "\n---\n"))))
+			fail("does-not-return:"+f.Kind, fmt.Sprintf("Do did not return (blocked readers %d, deadline armed %v, queued %d):\n%s", n, armed, o.StuckQueue, clipS2(o.StuckStacks, 3000)))
 		}
 		conn.Close()
 		return
